@@ -142,4 +142,32 @@ theorem cartToPolar?_toPolar (x y r c s : Rat) (h : cartToPolar? [x, y] = some [
       simp only
       rw [hy]; push_cast; field_simp
 
+/-! ### the specification functions over `ℝ` (pure mathematics; cited by Properties/C11.lean) -/
+
+theorem toCart_toPolar (p : ℝ × ℝ) : toCart (toPolar p) = p := by
+  obtain ⟨x, y⟩ := p
+  have h1 := Complex.norm_mul_cos_arg (⟨x, y⟩ : ℂ)
+  have h2 := Complex.norm_mul_sin_arg (⟨x, y⟩ : ℂ)
+  rw [norm_mk] at h1 h2
+  simp only [toCart, toPolar, Prod.mk.injEq]
+  exact ⟨h1, h2⟩
+
+theorem toPolar_radius (p : ℝ × ℝ) : 0 ≤ (toPolar p).1 ∧ (toPolar p).1 * (toPolar p).1 = p.1 * p.1 + p.2 * p.2 := by
+  refine ⟨Real.sqrt_nonneg _, Real.mul_self_sqrt (by nlinarith [mul_self_nonneg p.1, mul_self_nonneg p.2])⟩
+
+theorem toCart_rotate (r θ α : ℝ) :
+    toCart (r, θ + α) =
+      (Real.cos α * (toCart (r, θ)).1 - Real.sin α * (toCart (r, θ)).2,
+       Real.sin α * (toCart (r, θ)).1 + Real.cos α * (toCart (r, θ)).2) := by
+  simp only [toCart, Real.cos_add, Real.sin_add, Prod.mk.injEq]
+  constructor <;> ring
+
+theorem toCart_scale (r θ k : ℝ) :
+    toCart (r * k, θ) = ((toCart (r, θ)).1 * k, (toCart (r, θ)).2 * k) := by
+  simp only [toCart, Prod.mk.injEq]
+  constructor <;> ring
+
+/-- a point of the executable model as a pair of reals -/
+def ptR (p : List Rat) : ℝ × ℝ := (((p.getD 0 0 : Rat) : ℝ), ((p.getD 1 0 : Rat) : ℝ))
+
 end HcipyVerif.Grid
